@@ -1,6 +1,30 @@
 #!/usr/bin/env python3
 """Regenerates /verif/seeded/README.md from the meta.json files."""
 import json, glob, os, re
+
+# What happened when the change was first tried (kept by hand; the table itself is regenerated from meta.json).
+NOTES = {
+ "C09-1": "first missed; CTX-PAIRING added", "C09-3": "first missed; CTX-PAIRING added",
+ "C07-1": "first missed; PANIC-SAFE-UNLOCK added", "C07-2": "first missed; ERROR-KIND added", "C07-3": "first missed; no TryLock in terminal methods (LOCK-REGION)",
+ "C02-3": "first missed; MODE-TABLE checks the literal plumbing inside newSubscriberImpl",
+ "C12-3": "first missed; STATE-LEVEL covers stateful objects",
+ "C03-1": "first missed; STATE-LEVEL (objects) added to C03", "C03-3": "first missed; TEARDOWN-ALL-RUN / path-sensitive RELEASE",
+ "C14-1": "first missed; RELEASE made path-sensitive inside teardowns", "C14-2": "first missed; TEARDOWN-ALL-RUN", "C14-3": "first missed; RELEASE made path-sensitive inside teardowns",
+ "C11-2": "first missed; RESET-BEFORE-TERMINAL added", "C01-1": "first missed; GATE must be evaluated under the producer lock",
+ "C01-3": "first missed by C01 (reported by C02/C10); SUBJECT-BROADCAST-LOCKED added to C01",
+ "C05-1": "first missed; ARITY completion-pairing added", "C05-2": "first missed; RACE-LATE-LOSER added (patch re-based after the Race repair in /repo)", "C05-3": "first missed; COMPOSITION added",
+ "C06-1": "first missed; WAIT-IMPLEMENTORS added", "C06-3": "first missed; CALLBACK-REENTRANCY added",
+ "C08-3": "NOT reported: Contains is rewritten to answer at completion instead of at the first match - still synchronous, no goroutine or queue; what a value 'gives rise to' is the operator's definition (value level), outside the claimed clause of C08",
+ "C17-3": "first missed by C17 (reported by C12); STATE-LEVEL added to C17", "C18-3": "first missed; FLUSH-BEFORE-TERMINAL added",
+ "C19-1": "first missed; FORWARDER requires every reaching definition to derive from the received context, and C09 got the slot-context rule",
+ "C15-1": "NOT reported: the retry counter is reset after the failure was counted instead of before - counting attempts against the configuration is value level and explicitly not decided (C15 decides the sequencing of attempts only)",
+ "C15-3": "first missed; SEQUENTIAL-INNER-GUARD now also requires that the inner error path closes the subscription the guard tests",
+ "C04-1": "NOT reported: SampleWhen forgets to clear its has-value flag (re-emits the last value on every tick) - value level",
+ "C04-2": "first missed by C04 (reported by C12); STATE-LEVEL added to C04",
+ "C04-3": "NOT reported: Max seeds its maximum with the zero value (wrong result for all-negative input) - value level",
+ "C20-2": "first missed by C20 (reported by C12): a change to core GroupBy; C20 now re-checks the core premises of the native limiter", "C20-3": "first missed by C20 (reported by C10/C02): a change to the core unicast subject; C20 now re-checks the core premises of the native limiter",
+}
+
 rows = []
 for f in sorted(glob.glob("/verif/seeded/*/meta.json")):
     m = json.load(open(f))
@@ -16,7 +40,7 @@ for f in sorted(glob.glob("/verif/seeded/*/meta.json")):
             if l.startswith("#"):
                 first = l.lstrip("# ").strip()
                 break
-    rows.append((m["id"], m["breaks_property"], first, "yes" if m.get("caught") else "**no**", "<br>".join(f"`{k}`" for k in keys[:3]) or "-", m.get("strengthened", "")))
+    rows.append((m["id"], m["breaks_property"], first, "yes" if m.get("caught") else "**no**", "<br>".join(f"`{k}`" for k in keys[:3]) or "-", NOTES.get(m["id"], "")))
 out = ["# Seeded breaking changes", "",
  "Each directory holds one change to samber/ro written by an independent sub-agent that saw only the property record",
  "and a scratch worktree: `patch.diff` (compiles, pinned suite passes), `demo_test.go` (passes on the clean tree, fails with",
